@@ -337,3 +337,67 @@ Lemma good_lift_any : forall {A} g B (post : A -> Prop) (o : outcome A),
   o <> OutOfFuel -> (g = true -> o <> Panic) -> (forall a, o = Ok a -> post a) -> good g B post (lift o).
 Proof. intros. unfold good, lift; cbn [fst snd]. split; [auto|]. split; [auto|]. split; [constructor|auto]. Qed.
 
+
+(* ---------- segments by their length field; absolute allocation bound ---------- *)
+Lemma read_segment_eq : forall bs d rest l, read_segment bs = (Ok (d, rest), l) -> d = seg_data bs /\ rest = seg_rest bs.
+Proof.
+  intros bs d rest l H. unfold read_segment, read_u16 in H.
+  destruct bs as [|a [|b r]]; try (inversion H; fail).
+  destruct (a * 256 + b <? 2); [inversion H|].
+  apply bind_ok_inv in H. destruct H as ([] & l1 & l2 & Ha & Hr & ->).
+  destruct (zlen r <? a * 256 + b - 2); [inversion Hr|]. inversion Hr; subst. split; reflexivity.
+Qed.
+
+Lemma good_read_segment' : forall g bs, bytes bs ->
+  good g 65533 (fun x => bytes (fst x) /\ bytes (snd x) /\ zlen (fst x) <= 65533 /\ (length (snd x) <= length bs)%nat /\
+                         fst x = seg_data bs /\ snd x = seg_rest bs) (read_segment bs).
+Proof.
+  intros g bs Hb. destruct (good_read_segment g bs Hb) as (A & B & C & D).
+  split; [exact A|]. split; [exact B|]. split; [exact C|].
+  intros [d rest] E. destruct (D _ E) as (D1 & D2 & D3 & D4).
+  destruct (read_segment bs) as [o l] eqn:ER. cbn [fst] in E. subst o.
+  destruct (read_segment_eq _ _ _ _ ER). cbn [fst snd]. repeat split; auto.
+Qed.
+
+Lemma sof_S_nonneg : forall d, bytes d -> 0 <= sof_S d.
+Proof.
+  intros d H. unfold sof_S. destruct (zlen d <? 6); [lia|].
+  pose proof (bytes_znth d 1 H). pose proof (bytes_znth d 2 H). pose proof (bytes_znth d 3 H).
+  pose proof (bytes_znth d 4 H). pose proof (bytes_znth d 5 H).
+  apply Z.mul_nonneg_nonneg; [apply Z.mul_nonneg_nonneg|]; lia.
+Qed.
+
+(* no panic, no out-of-fuel, every request <= c*S + 2*len + 65536 for a given number S *)
+Definition aloopP {A} (S c : Z) (bs : list Z) (m : M A) : Prop :=
+  fst m <> Panic /\ fst m <> OutOfFuel /\ Forall (fun a => a <= c * S + 2 * zlen bs + 65536) (snd m).
+
+Lemma aloopP_err : forall {A} S c bs, @aloopP A S c bs err.
+Proof. intros. unfold aloopP; simpl. split; [congruence|]. split; [congruence|constructor]. Qed.
+Lemma aloopP_ret : forall {A} S c bs (a : A), aloopP S c bs (ret a).
+Proof. intros. unfold aloopP; simpl. split; [congruence|]. split; [congruence|constructor]. Qed.
+Lemma aloopP_mono : forall {A} S S' c bs bs' (m : M A), 0 <= c -> S' <= S -> zlen bs' <= zlen bs ->
+  aloopP S' c bs' m -> aloopP S c bs m.
+Proof.
+  intros A S S' c bs bs' m Hc HS Hl (X & Y & Z0). split; [exact X|]. split; [exact Y|].
+  eapply Forall_impl; [|exact Z0]. cbv beta. intros a Ha. nia.
+Qed.
+Lemma aloopP_bind : forall {A C} S c bs B (pa : A -> Prop) (pf : M A) (f : A -> M C),
+  good true B pa pf -> B <= c * S + 2 * zlen bs + 65536 -> (forall a, pa a -> aloopP S c bs (f a)) ->
+  aloopP S c bs (bind pf f).
+Proof.
+  intros A C S c bs B pa pf f (G1 & G2 & G3 & G4) HB Hf.
+  assert (Hsm : Forall (fun a => a <= c * S + 2 * zlen bs + 65536) (snd pf)).
+  { eapply Forall_impl; [|exact G3]. cbv beta; intros. lia. }
+  specialize (G1 eq_refl).
+  destruct pf as [[a| | |] l]; unfold bind; cbn [fst snd] in *;
+    try (exfalso; apply G1; reflexivity); try (exfalso; apply G2; reflexivity).
+  - destruct (Hf a (G4 a eq_refl)) as (F1 & F2 & F3). split; [exact F1|]. split; [exact F2|].
+    apply Forall_app; auto.
+  - split; [discriminate|]. split; [discriminate|exact Hsm].
+Qed.
+Lemma good_aloopP : forall {A} S c bs B (p : A -> Prop) (m : M A),
+  good true B p m -> B <= c * S + 2 * zlen bs + 65536 -> aloopP S c bs m.
+Proof.
+  intros A S c bs B p m (G1 & G2 & G3 & _) HB. split; [apply G1; reflexivity|]. split; [exact G2|].
+  eapply Forall_impl; [|exact G3]. cbv beta; intros; lia.
+Qed.
